@@ -161,7 +161,7 @@ def intrinsic_base(name):
     if name.startswith("llvm.x86."):
         return name
     parts = name.split(".")
-    while len(parts) > 2 and (parts[-1][:1] in "fivp" and any(ch.isdigit() for ch in parts[-1])):
+    while len(parts) > 2 and (parts[-1][:1] in "fivp" and any(ch.isdigit() for ch in parts[-1])):  # f32, i64, v4f32, p0i8
         parts.pop()
     return ".".join(parts)
 
@@ -429,7 +429,63 @@ class Sym:
             t = ('sel', c, v, t)
         return t
 
+    def _vec_elems(self, v, n, ety):
+        if v[0] == 'vec':
+            return list(v[1:])
+        if v[0] == 'zero':
+            z = ('cf', 0.0, ety) if not ety.startswith('i') else ('ci', 0, int(ety[1:]))
+            return [z] * n
+        return None
+
     def _inst(self, inst, bc, b, incoming):
+        op = inst["op"]
+        ops = inst["ops"]
+        ty = inst["ty"]
+        if ty.startswith("<") and op in ("add", "sub", "mul", "shl", "lshr", "ashr", "and", "or", "xor", "fadd", "fsub", "fmul", "fdiv",
+                                         "fneg", "zext", "sext", "trunc", "fptoui", "fptosi", "uitofp", "sitofp", "fpext", "fptrunc", "select", "icmp", "fcmp"):
+            n = int(ty[1:].split(" x ")[0])
+            ety = ty.split(" x ")[1].rstrip(">")
+            vals = [self.operand(o) for o in ops]
+            cols = []
+            for v, o in zip(vals, ops):
+                oty = o.get("ty", "")
+                if oty.startswith("<"):
+                    e = self._vec_elems(v, n, oty.split(" x ")[1].rstrip(">"))
+                    if e is None:
+                        cols = None
+                        break
+                    cols.append(e)
+                else:
+                    cols.append([v] * n)
+            if cols is not None:
+                out = []
+                for i in range(n):
+                    fake = dict(inst)
+                    fake["ty"] = ety
+                    out.append(self._scalar(fake, [c[i] for c in cols], bc))
+                return ('vec',) + tuple(out)
+        return self._inst2(inst, bc, b, incoming)
+
+    def _scalar(self, inst, vals, bc):
+        """scalar semantics of an elementwise instruction applied to already-evaluated operands"""
+        op = inst["op"]
+        ty = inst["ty"]
+        if op in ("icmp", "fcmp"):
+            return ('cmp', inst["pred"], vals[0], vals[1])
+        if op == "select":
+            c, x, y = vals
+            if c == TRUE:
+                return x
+            if c == FALSE:
+                return y
+            return x if x == y else ('sel', c, x, y)
+        if op == "fneg":
+            return ('op', 'fsub', ty, ('cf', -0.0, ty), vals[0])
+        if op in ("zext", "sext", "trunc", "fptoui", "fptosi", "uitofp", "sitofp", "fpext", "fptrunc"):
+            return ('cast', op, ty, vals[0])
+        return ('op', op, ty, vals[0], vals[1])
+
+    def _inst2(self, inst, bc, b, incoming):
         op = inst["op"]
         ops = inst["ops"]
         ty = inst["ty"]
@@ -714,7 +770,12 @@ class Sym:
             return None
         base = intrinsic_base(name) if name.startswith("llvm.") else name
         if base in PURE_INTRINSICS or base in PURE_LIBM:
-            return ('fn', base, inst["ty"]) + args
+            rty = inst["ty"]
+            if rty.startswith("<") and all(a[0] == 'vec' for a in args):
+                n = len(args[0]) - 1
+                ety = rty.split(" x ")[1].rstrip(">")
+                return ('vec',) + tuple(('fn', base, ety) + tuple(a[1 + i] for a in args) for i in range(n))
+            return ('fn', base, rty) + args
         c = Call(len(self.calls), name, inst.get("dcallee"), args, inst, bc)
         self.calls.append(c)
         # arguments that are local pointers: the callee may write them (sret etc.)
@@ -757,10 +818,20 @@ class Sym:
         self.unknown.append(inst)
 
     # ---- results ----
-    def outputs(self, argi):
-        """Stores through pointer argument argi: {offset: term} (gated on path conditions)."""
+    def outputs(self, argi, esize=None, ety=None):
+        """Stores through pointer argument argi: {offset: term} (gated on path conditions).
+        With esize/ety, zero-memsets are expanded into per-element zero constants."""
         out = {}
+        stores = []
         for s in self.stores:
+            if s.base == ('arg', argi) and isinstance(s.off, int) and isinstance(s.val, tuple) and s.val[0] == 'memset' and esize \
+                    and s.val[1] == ('ci', 0, 8) and isinstance(s.size, int):
+                z = ('cf', 0.0, ety) if not ety.startswith('i') else ('ci', 0, esize * 8)
+                for o in range(s.off, s.off + s.size, esize):
+                    stores.append(Store(s.base, o, esize, z, s.cond, s.inst))
+            else:
+                stores.append(s)
+        for s in stores:
             if s.base == ('arg', argi) and isinstance(s.off, int):
                 v = s.val
                 if s.off in out and s.cond != TRUE:
